@@ -239,6 +239,11 @@ def run(ctx):
 
     # ---- R4 write set + write back (shared with C08)
     _inplace_signers(ctx.sub("R4"), "C08-R3")
+    # "the file is the canonical form of its content": what the writer puts on disk is exactly
+    # canonserialize(document) (C08-R1)
+    from .c08 import writer_model
+
+    writer_model(ctx.sub("R4"), "C08-R1")
 
     # ---- R6: signing completes for every document whatever the console: text the signer (or
     # anything it calls in the package) prints is ASCII-safe - a progress line with an artifact
